@@ -101,6 +101,11 @@ HNodeLeave(r, x) ==
     [] r.mem[x].st = 1 -> Res([r EXCEPT !.mem[x].st = 4, !.failedL = Append(@, x)], FALSE, << <<3, x>> >>, <<>>, <<>>)
     [] OTHER           -> Res(r, FALSE, <<>>, <<>>, <<>>)
 
+\* handleNodeUpdate (memberlist NotifyUpdate: the member's meta data changed)
+HNodeUpdate(r, x) ==
+  IF r.mem[x].st = 0 THEN Res(r, FALSE, <<>>, <<>>, <<>>)
+                     ELSE Res(r, FALSE, << <<4, x>> >>, <<>>, <<>>)
+
 \* broadcastJoin(lt): Witness, handle locally, queue the join whatever the local handler said
 BroadcastJoin(r, lt) ==
   LET h == HJoinIntent([r EXCEPT !.clock = Witness(@, lt)], r.self, lt) IN
